@@ -85,7 +85,7 @@ def replay(ctx, behaviours, exe, env, fan, tag=""):
         e = dict(env)
         e["DEPHASH_WORK"] = os.path.join(ctx.tmp, "dh%s-%d" % (tag, ci))
         os.makedirs(e["DEPHASH_WORK"], exist_ok=True)
-        outs, crashes = run_replayer(ctx, exe, e, [cases[i] for i in idx], timeout=3000)
+        outs, crashes = run_replayer(ctx, exe, e, [cases[i] for i in idx], timeout=7200)
         return ci, outs, crashes
 
     with concurrent.futures.ThreadPoolExecutor(max_workers=fan) as ex:
@@ -178,7 +178,8 @@ def run(ctx):
     # (cfg, simulate num, depth, cap on the number of distinct behaviours kept)
     gens = [("mc/DepHash_gen.cfg", None, None, None), ("mc/DepHash_sim3q.cfg", 10, 8, 40)]
     if thorough:
-        gens = [("mc/DepHash_gen5.cfg", None, None, None), ("mc/DepHash_sim3.cfg", 150, 12, 600)]
+        gens = [("mc/DepHash_gen5.cfg", None, None, None), ("mc/DepHash_gen4v3.cfg", None, None, None),
+                ("mc/DepHash_sim3.cfg", 100, 12, 300)]
     seen, behaviours = set(), []
     for cfg, sim, depth, cap in gens:
         # simulation with one worker: the order of the traces is a function of the seed
@@ -229,7 +230,8 @@ def run(ctx):
     variants = 1
     if thorough:
         # the same short histories through device::buildKernelFromString, and on the OpenMP device
-        short = [b for b in behaviours if len(b["steps"]) <= 4 and len(b["init"]) == 2]
+        short = [b for b in behaviours if len(b["steps"]) <= 4 and len(b["init"]) == 2
+                 and all(t.get("x") != 3 and t["text"]["val"] != 3 for t in b["steps"] if t["a"] != "build")]
         for tag, extra in (("-string", {"DEPHASH_KIND": "string"}), ("-openmp", {"DEPHASH_MODE": "OpenMP"})):
             e2 = dict(env)
             e2.update(extra)
